@@ -54,8 +54,8 @@ Record carrier (D : Type) := {
 Arguments dflt {D}. Arguments lit {D}. Arguments cst {D}. Arguments binf {D}. Arguments unf {D}. Arguments show {D}.
 
 (* Debug text of a term as the harness prints it: a literal prints its text, everything else
-   prints something that is not a literal ("#") *)
-Definition show_term (t : term) : str := match t with Lit s => s | _ => [35%N] end.
+   prints something that is not a literal (the section sign U+00A7) *)
+Definition show_term (t : term) : str := match t with Lit s => s | _ => [167%N] end.
 Definition term_carrier : carrier term :=
   {| dflt := Dflt; lit := fun s => Some (Lit s); cst := Cst; binf := Bin; unf := Un; show := show_term |}.
 
